@@ -2,7 +2,7 @@
    Statements only; proofs in Proofs/WorldInv.v. *)
 From stdpp Require Import gmap.
 From Coq Require Import ZArith NArith.
-From NSG Require Import Model.Coord Proofs.CoordViews Model.World Model.Load Model.Game Proofs.WorldStep Proofs.WorldInv Proofs.InitViewFacts Proofs.Game.
+From NSG Require Import Model.Coord Proofs.CoordAgentStep Proofs.CoordViews Model.World Model.Load Model.Game Proofs.WorldStep Proofs.WorldInv Proofs.InitViewFacts Proofs.Game.
 
 (* one step: the monotone parts of the view never shrink (networks, hosts, controlled hosts,
    data per host, blocks per host) *)
@@ -53,6 +53,18 @@ Theorem C11_whole_game : forall (sp : role -> start_pos) (goal : role -> view ->
   @execs view gworld gaction g_wstep g_wreset (g_winit sp) goal detect cfg (init_state W0) ls = Some s ->
   forall c a, alookup c (agents s) = Some a -> wf_view (a_view a) /\ anchored (fst (Coord.world s)) (a_view a).
 Proof. exact game_views_ok. Qed.
+
+(* ... and only grows: between two points of an episode (no run of the reset task in between) the view stored for an agent
+   only grows, whatever the other agents, the reward task, departures and joins do in between (Proofs/CoordViewStep.v:
+   a label changes a stored view only by the world's answer to the agent's own action, or by the reset) *)
+Theorem C11_whole_game_mono : forall (sp : role -> start_pos) (goal : role -> view -> bool) (detect : list gaction -> gaction -> bool)
+    (cfg : config) (W0 : gworld) (ls0 ls : list (@label gaction)) (s s' : @state view gworld gaction) c a,
+  @execs view gworld gaction g_wstep g_wreset (g_winit sp) goal detect cfg (init_state W0) ls0 = Some s ->
+  @execs view gworld gaction g_wstep g_wreset (g_winit sp) goal detect cfg s ls = Some s' ->
+  no_reset ls -> alookup c (agents s) = Some a ->
+  (exists a', alookup c (agents s') = Some a' /\ view_le (a_view a) (a_view a')) \/
+  gone_along g_wstep g_wreset (g_winit sp) goal detect cfg s ls c.
+Proof. exact game_views_grow. Qed.
 
 (* the lifting principle behind it, for any relation between world and view that the world model keeps *)
 Theorem C11_lifting : forall (V W G : Type) (wstep : W -> V -> G -> W * V) (wreset : W -> W) (winit : W -> role -> W * V)
@@ -109,3 +121,4 @@ Print Assumptions C11_invariant.
 Print Assumptions C11_mono.
 Print Assumptions C11_whole_game.
 Print Assumptions C11_lifting.
+Print Assumptions C11_whole_game_mono.
